@@ -162,4 +162,13 @@ CHECKS = {
         assumptions=SIM_ASSUMPTIONS + ["answers the code must treat as failures are fabricated at the request; whether a (request, kind) pair is a documented benign race is a table written from the statement (tolerated: nothing asserted about the error)",
                                        "random multi-fault sequences are outside this technique family; bounded exhaustive pairs replace them"],
     ),
+    "C04": dict(
+        level="model_checking",
+        rule="part 1: selector form(6: matchLabels, In, NotIn, Exists, generated, empty) x object labels(3) x owner-reference list(6) x object deleting(2) x cached parent alive/deleting x live parent(4: same, deleting, replaced UID, gone) x children and ControllerRevisions x desired-child labels match/no-match, one real sync each; "
+             "part 2: two parents with the same selector adopt one orphan concurrently - all interleavings at API-request granularity with at most 2 preemptions (thorough: unbounded) under the cooperative scheduler",
+        units=[
+            dict(pkg=COMPOSITE, test="TestVerifC04", shards=dict(quick=4, thorough=8), budget=dict(quick=300, thorough=1800)),
+        ],
+        assumptions=SIM_ASSUMPTIONS + ["the 'at most one controller reference' clause is enforced jointly with the API server's own ObjectMeta validation (real apimachinery validation in the sim)"],
+    ),
 }
